@@ -538,12 +538,14 @@ var ruleRegexFlags = &Rule{
 		}
 		// the three functions, by signature, among the methods of regexFlags
 		var validator, prefix, quote *ssa.Function
-		ms := p.SSA.MethodSets.MethodSet(flagsT)
-		for i := 0; i < ms.Len(); i++ {
-			f := p.SSA.MethodValue(ms.At(i))
-			if f == nil || f.Blocks == nil {
-				continue
+		var cands []*ssa.Function
+		for f := range p.AllFns {
+			if fnPkgPath(f) == pkgAST && f.Blocks != nil && f.Synthetic == "" && f.Parent() == nil && takesOnly(f, flagsT) {
+				cands = append(cands, f)
 			}
+		}
+		sortFuncs(cands)
+		for _, f := range cands {
 			res := f.Signature.Results()
 			switch {
 			case res.Len() == 2 && isErrorType(res.At(1).Type()) && namedOf(res.At(0).Type()) != nil && namedOf(res.At(0).Type()).Obj().Name() == "Flags":
@@ -646,6 +648,11 @@ var ruleRegexFlags = &Rule{
 					want := int64(0)
 					if letters == "" {
 						want = 1
+					}
+					// polarity of the test: `len == start` is true when nothing
+					// was appended, `len != start` / `len > start` when something was
+					if bo, ok := ptx.atoms[free[0]].Val.(*ssa.BinOp); ok && (bo.Op == token.NEQ || bo.Op == token.GTR) {
+						want = 1 - want
 					}
 					as[free[0]] = want
 					if empty != (letters == "") {
